@@ -532,7 +532,21 @@ DupCmds(s) ==
     \cup [t : {"DeleteTeam"}, id : OwnIds(s.teams)]
     \cup [t : {"DeleteToken"}, id : OwnIds(s.tokens)]
 
+\* "chain" focus: one org -> team -> role chain with repeated create / delete / create of measurement
+\* permissions (and roles) under the SAME parent, then deletion of a parent: index buckets that are
+\* dropped when they become empty and must be re-created on the next insert
+ChainCmds(s) ==
+    [t : {"CreateOrg"}, name : {"o1"}, cz : {FALSE}]
+    \cup [t : {"CreateTeam"}, org : OwnIds(s.orgs), name : {"m1"}, cz : {FALSE}]
+    \cup [t : {"CreateRole"}, team : OwnIds(s.teams), pat : {"db*"}, perms : {"read"}, cz : {FALSE}]
+    \cup [t : {"CreateMPerm"}, role : OwnIds(s.roles), pat : {"cpu*"}, perms : {"read"}, cz : {FALSE}]
+    \cup [t : {"DeleteMPerm"}, id : OwnIds(s.mperms)]
+    \cup [t : {"DeleteRole"}, id : OwnIds(s.roles)]
+    \cup [t : {"DeleteTeam"}, id : OwnIds(s.teams)]
+    \cup [t : {"DeleteOrg"}, id : OwnIds(s.orgs)]
+
 Cmds(s) ==
+    (IF "chain" \in Focus THEN ChainCmds(s) ELSE {}) \cup
     (IF "failover" \in Focus THEN FailoverCmds(s) ELSE {}) \cup
     (IF "dup"   \in Focus THEN DupCmds(s)   ELSE {}) \cup
     (IF "deep"  \in Focus THEN DeepCmds(s)  ELSE {}) \cup
